@@ -155,6 +155,26 @@ func genDataset(r *rand.Rand) *dataset {
 		}
 		d.series = append(d.series, s)
 	}
+	// Wide label: one label with many distinct values, around the multiples of 32 at which the
+	// persisted index samples its postings-offset table (every 32nd value plus the last one).
+	if r.IntN(4) == 0 {
+		nw := []int{31, 32, 33, 34, 63, 64, 65, 66, 97, 129}[r.IntN(10)]
+		d.names = append(d.names, "wide")
+		for i := 0; i < nw; i++ {
+			v := fmt.Sprintf("w%03d", i)
+			ls := labels.FromStrings("__name__", metricNames[0], "wide", v)
+			sr := &ser{lset: ls, key: ls.String()}
+			for reg := 0; reg < regions; reg++ {
+				if reg == 0 || r.IntN(2) == 0 {
+					sr.ts = append(sr.ts, int64(reg)*regionLen+int64(r.IntN(regionLen)))
+				}
+			}
+			d.series = append(d.series, sr)
+			if i == 0 || i >= nw-2 || r.IntN(16) == 0 {
+				d.values = append(d.values, v)
+			}
+		}
+	}
 	return d
 }
 
